@@ -21,12 +21,18 @@ if [ "${1:-}" = "C09" ] || [ "${1:-}" = "all" ]; then
   # statement of the validator path (tools/yieldins). The copy is removed again.
   COPY=$(mktemp -d /tmp/verifsim-c09-XXXXXX)
   trap 'rm -rf "$COPY"' EXIT
-  rsync -a --exclude .git "$REPO/" "$COPY/"
   go build -o ../bin/yieldins ./tools/yieldins
-  ../bin/yieldins "$COPY" verify/verify.go gcetcbendorsement/sevvalidate.go gcetcbendorsement/sevpolicy.go gcetcbendorsement/tdxvalidate.go gcetcbendorsement/tdxpolicy.go >/dev/null
-  sed "s#=> /repo#=> $COPY#" go.mod > "$COPY/harness.mod"
-  cp go.sum "$COPY/harness.sum"
-  go build -modfile="$COPY/harness.mod" -tags "verif verifyield" -o ../bin/verifsim-c09 ./cmd/verifsim
+  c09build() {
+    rsync -a --delete --exclude .git "$REPO/" "$COPY/"
+    ../bin/yieldins "$COPY" verify/verify.go gcetcbendorsement/sevvalidate.go gcetcbendorsement/sevpolicy.go gcetcbendorsement/tdxvalidate.go gcetcbendorsement/tdxpolicy.go >/dev/null
+    sed "s#=> /repo#=> $COPY#" go.mod > "$COPY/harness.mod"
+    cp go.sum "$COPY/harness.sum"
+    go build -modfile="$COPY/harness.mod" -tags "verif verifyield" -o ../bin/verifsim-c09 ./cmd/verifsim
+  }
+  # Lock()/RLock() statements are routed through the scheduler (TryLock + park); a receiver that has
+  # no Try method does not compile that way, so fall back to plain yield insertion.
+  c09build 2>/tmp/verifsim-c09-build.$$ || { echo "build.sh: C09 worker does not build with scheduler-aware locks; retrying without" >&2; VERIF_YIELD_NOLOCKS=1 c09build; }
+  rm -f /tmp/verifsim-c09-build.$$
   rm -rf "$COPY"; trap - EXIT
 fi
 if [ "${1:-}" = "C20" ] || [ "${1:-}" = "all" ]; then
